@@ -22,7 +22,7 @@ ESlice(o, a, b, c) == [k |-> "slice", obj |-> o, start |-> a, end |-> b, step |-
 BaseConsts == << [name |-> "CI", ty |-> "int", e |-> EInt(7)], [name |-> "CN", ty |-> "int", e |-> EUn("-", EInt(3))],
                  [name |-> "CF", ty |-> "float", e |-> EFloat(5, 1)],
                  [name |-> "CS", ty |-> "str", e |-> EStr(<<"a", "e2", "u3", "s4", "b">>)], [name |-> "CT", ty |-> "str", e |-> EStr(<<"e2">>)],
-                 [name |-> "CB", ty |-> "bool", e |-> EBool(TRUE)] >>
+                 [name |-> "CB", ty |-> "bool", e |-> EBool(TRUE)], [name |-> "CE", ty |-> "str", e |-> EStr(<<>>)] >>
 
 Prec(op) == CASE op \in {"and", "or", "in", "not in"} -> 35 [] op \in CmpOps -> 40 [] op \in {"+", "-"} -> 50
               [] op \in {"*", "/", "//", "%"} -> 60 [] op = "**" -> 70
@@ -46,6 +46,10 @@ D1 == {EBin(o, l, r) : o \in AllOps, l \in Leaves, r \in Leaves}
       \cup {EBin("**", l, x) : l \in {EInt(2), EInt(3), EId("CI"), EFloat(3, 1), EId("CF")},
                                x \in {EInt(2), EInt(0), EUn("-", EInt(1)), EId("CI"), EId("CN"), EFloat(3, 1), EId("CF")}}
       \cup {EIndex(o, i) : o \in {EId("CS"), EId("CT"), EStr(<<"u3", "s4">>)}, i \in IdxLeaves}
+      \* the empty string: every index is out of range, every slice is empty - and a zero step is still an error
+      \cup {EIndex(o, i) : o \in {EId("CE"), EStr(<<>>)}, i \in {EInt(0), EUn("-", EInt(1))}}
+      \cup {ESlice(o, a, b, c) : o \in {EId("CE"), EStr(<<>>), EBin("+", EId("CE"), EId("CE"))}, a \in {<<>>, <<EInt(1)>>}, b \in {<<>>, <<EUn("-", EInt(1))>>},
+                                 c \in {<<>>, <<EInt(0)>>, <<EUn("-", EInt(1))>>}}
       \cup {ESlice(o, a, b, c) : o \in {EId("CS")}, a \in {<<>>, <<EInt(1)>>, <<EUn("-", EInt(2))>>},
                                  b \in {<<>>, <<EInt(4)>>, <<EUn("-", EInt(1))>>}, c \in {<<>>, <<EInt(2)>>, <<EUn("-", EInt(1))>>, <<EInt(0)>>}}
 
